@@ -85,7 +85,12 @@ type Sim struct {
 	Probes    map[string]int
 	probeMu   sync.Mutex
 
+	rootGid uint64
 	stopped atomic.Bool
+	// PassThrough makes every yield point return immediately (set by the
+	// scheduler goroutine while it runs instrumented code itself and waits
+	// for goroutines that code spawns).
+	PassThrough atomic.Bool
 	// Panics recovered in harness tasks.
 	Panics []string
 }
@@ -108,6 +113,8 @@ var mandatory = map[string]bool{
 	"mut.intxn":           true,
 	"query.start":         true,
 	"query.next":          true,
+	"crash.op":            true,
+	"crash.restart":       true,
 }
 
 // New creates a simulation driven by the tape.
@@ -212,6 +219,9 @@ func (s *Sim) Yield(point, arg string) {
 		// Run is over: park forever (the bubble is abandoned).
 		select {}
 	}
+	if s.PassThrough.Load() {
+		return
+	}
 	if s.Observer != nil {
 		s.Observer(point, arg)
 	}
@@ -220,6 +230,12 @@ func (s *Sim) Yield(point, arg string) {
 	}
 	raceDisable()
 	gid := goid()
+	if gid == s.rootGid {
+		// the scheduler goroutine itself runs instrumented code (e.g. when
+		// it opens a crash image): never park it
+		raceEnable()
+		return
+	}
 	s.mu.Lock()
 	t := s.lookup(gid)
 	if t == nil {
@@ -461,3 +477,6 @@ func (s *Sim) TaskAction(t *Task) Action {
 	}
 	return Action{Label: "run " + name + " @" + t.Point + "(" + t.Arg + ")", task: t}
 }
+
+// MarkRoot records the calling goroutine as the scheduler goroutine.
+func (s *Sim) MarkRoot() { s.rootGid = goid() }
